@@ -3,7 +3,6 @@ package main
 import (
 	"bytes"
 	"sync"
-	"time"
 
 	. "vh/lib"
 
@@ -64,19 +63,18 @@ func flvConv(c Val) Val {
 	for _, f := range c.At(6).List() {
 		m.WriteFrame(&codec.Frame{MediaType: codec.MediaType(f.At(0).Int()), Dts: 0, Pts: 1000000, Payload: f.At(1).Bytes()})
 	}
-	if !known { // let the muxer drop what it has, then make the sets known so that the end marker gets through
-		time.Sleep(20 * time.Millisecond)
+	if !known { // let the muxer drop what it has (quiescent = its queue is empty), then make the sets known so that the end marker gets through
+		if !quiesce() {
+			return unevalVal("flv muxer did not drain")
+		}
 		vm.Sps, vm.Pps, vm.Vps = []byte{0x67, 0x42, 0, 0x1f, 1}, []byte{0x68, 1}, []byte{0x40, 1, 1}
 	}
 	m.WriteFrame(&codec.Frame{MediaType: codec.MediaTypeVideo, Pts: 2000000, Payload: append([]byte{0x41}, convEnd...)})
-	alive := true
-	select {
-	case <-rec.done:
-	case <-dc.died:
-		alive = false
-	case <-time.After(5 * time.Second):
-		alive = false
+	dead, uneval := awaitOrIdle(rec.done, dc.died)
+	if uneval {
+		return unevalVal("converter did not get to the end marker within the long bound")
 	}
+	alive := !dead
 	rec.mu.Lock()
 	defer rec.mu.Unlock()
 	return L(Bo(alive), I(int64(rec.media)))
@@ -122,14 +120,11 @@ func tsConv(c Val) Val {
 		m.WriteFrame(&codec.Frame{MediaType: codec.MediaType(f.At(0).Int()), Dts: 0, Pts: 1000000, Payload: f.At(1).Bytes()})
 	}
 	m.WriteFrame(&codec.Frame{MediaType: codec.MediaTypeVideo, Pts: 2000000, Payload: append([]byte{0x41}, convEnd...)})
-	alive := true
-	select {
-	case <-rec.done:
-	case <-dc.died:
-		alive = false
-	case <-time.After(5 * time.Second):
-		alive = false
+	dead, uneval := awaitOrIdle(rec.done, dc.died)
+	if uneval {
+		return unevalVal("converter did not get to the end marker within the long bound")
 	}
+	alive := !dead
 	rec.mu.Lock()
 	defer rec.mu.Unlock()
 	return L(Bo(alive), I(int64(rec.video)), I(int64(rec.audio)))
